@@ -4,10 +4,13 @@ package main
 
 import (
 	"context"
+	"encoding/json"
 	"errors"
 	"fmt"
 	"os"
+	"os/exec"
 	"path/filepath"
+	"sort"
 	"strconv"
 	"strings"
 	"sync"
@@ -19,14 +22,15 @@ import (
 )
 
 type cse struct {
-	IgnoreTerm bool    `json:"ignore_term"`
-	Child      string  `json:"child"` // none | holds-stdout | detached
-	Exit       string  `json:"exit"`  // before | at | after
-	Timeout    float64 `json:"timeout_s"`
+	IgnoreTerm      bool    `json:"ignore_term"`
+	ChildIgnoreTerm bool    `json:"child_ignore_term"` // (a child of a shell that ignores SIGTERM inherits that)
+	Child           string  `json:"child"`             // none | holds-stdout | detached
+	Exit            string  `json:"exit"`              // before | at | after
+	Timeout         float64 `json:"timeout_s"`
 }
 
 func (c cse) String() string {
-	return fmt.Sprintf("ignoreTERM=%v child=%s exit=%s timeout=%.1fs", c.IgnoreTerm, c.Child, c.Exit, c.Timeout)
+	return fmt.Sprintf("ignoreTERM=%v childIgnoresTERM=%v child=%s exit=%s timeout=%.1fs", c.IgnoreTerm, c.ChildIgnoreTerm, c.Child, c.Exit, c.Timeout)
 }
 
 func alive(pid int) bool {
@@ -53,8 +57,8 @@ func readPid(p string) int {
 	return n
 }
 
-// run executes one case; returns (class, detail) or "".
-func run(e *process.Executor, c cse, dir string) (string, string) {
+// run executes one case; returns (class, detail, outcome); class "" = held.
+func run(e *process.Executor, c cse, dir string) (string, string, *outcome) {
 	os.MkdirAll(dir, 0o755)
 	mainPid, childPid := filepath.Join(dir, "main.pid"), filepath.Join(dir, "child.pid")
 	var sb strings.Builder
@@ -63,7 +67,7 @@ func run(e *process.Executor, c cse, dir string) (string, string) {
 	}
 	fmt.Fprintf(&sb, "echo $$ > %s; ", mainPid)
 	childCmd := "sleep 30"
-	if c.IgnoreTerm {
+	if c.ChildIgnoreTerm {
 		childCmd = "bash -c \"trap '' TERM; sleep 30\""
 	}
 	switch c.Child {
@@ -72,11 +76,13 @@ func run(e *process.Executor, c cse, dir string) (string, string) {
 	case "detached":
 		fmt.Fprintf(&sb, "%s >/dev/null 2>&1 </dev/null & echo $! > %s; ", childCmd, childPid)
 	}
+	// the shell notes the instant at which it ends by itself ($EPOCHREALTIME is a bash builtin: no process is created)
+	mainEnd := filepath.Join(dir, "main.end")
 	switch c.Exit {
 	case "before":
-		sb.WriteString("sleep 0.05")
+		fmt.Fprintf(&sb, "sleep 0.05; echo $EPOCHREALTIME > %s", mainEnd)
 	case "at":
-		fmt.Fprintf(&sb, "sleep %.2f", c.Timeout)
+		fmt.Fprintf(&sb, "sleep %.2f; echo $EPOCHREALTIME > %s", c.Timeout, mainEnd)
 	case "after":
 		sb.WriteString("sleep 30; sleep 30")
 	}
@@ -84,51 +90,182 @@ func run(e *process.Executor, c cse, dir string) (string, string) {
 	start := time.Now()
 	_, _, err := e.ExecWithTimeout(context.Background(), nil, dir, []string{"PATH=/usr/bin:/bin"}, timeout, false, false, false, false, process.NoSandbox, []string{"bash", "-c", sb.String()})
 	took := time.Since(start)
-	// generous, documented bound: deadline + the code's own TERM (30ms) and KILL (1s) waits + 5s slack
-	bound := timeout + 1030*time.Millisecond + 5*time.Second
 	timedOut := errors.Is(err, context.DeadlineExceeded)
+	o := &outcome{TimedOut: timedOut}
+	// generous, documented bound: deadline + the code's own TERM (30ms) and KILL (1s) waits + 5s slack. A machine so loaded
+	// that a trivial command takes seconds says nothing about plz: then the lateness is noted, not reported.
+	bound := timeout + 1030*time.Millisecond + 5*time.Second
 	if took > bound {
-		return "returned-too-late", fmt.Sprintf("%s: returned after %v (> %v), err=%v", c, took, bound, err)
+		t0 := time.Now()
+		e.ExecWithTimeout(context.Background(), nil, dir, []string{"PATH=/usr/bin:/bin"}, 30*time.Second, false, false, false, false, process.NoSandbox, []string{"bash", "-c", "true"})
+		if probe := time.Since(t0); probe > time.Second {
+			fmt.Fprintf(os.Stderr, "NOTE: %s returned after %v but the machine needs %v for `true`; lateness not judged\n", c, took, probe)
+		} else {
+			return "returned-too-late", fmt.Sprintf("%s: returned after %v (> %v), err=%v", c, took, bound, err), o
+		}
 	}
-	expectTimeout := c.Exit == "after" || (c.Child == "holds-stdout") // a child holding the output pipe keeps the action unfinished until the deadline
-	if c.Exit == "at" {
-		expectTimeout = timedOut // both outcomes accepted right at the deadline
-	}
-	if expectTimeout && !timedOut {
-		return "deadline-not-reported", fmt.Sprintf("%s: expected a deadline error, got %v after %v", c, err, took)
-	}
-	if !expectTimeout && timedOut {
-		return "spurious-deadline", fmt.Sprintf("%s: finished before the deadline but reported %v", c, err)
+	// What really happened decides what must be reported: the shell's own end (if it got there) against the deadline.
+	// Half the timeout is left as a margin for a loaded machine: inside it both verdicts are accepted.
+	endedAt, ended := readEnd(mainEnd)
+	deadline := start.Add(timeout)
+	holder := c.Child == "holds-stdout" // a child holding the output pipe keeps the action unfinished until the deadline
+	switch {
+	case !ended && !timedOut:
+		return "success-reported-for-a-command-that-did-not-finish", fmt.Sprintf("%s: the shell never reached its end but err=%v after %v", c, err, took), o
+	case c.Exit == "after" && !timedOut:
+		return "deadline-not-reported", fmt.Sprintf("%s: expected a deadline error, got %v after %v", c, err, took), o
+	case holder && ended && endedAt.Before(deadline.Add(-timeout/2)) && !timedOut:
+		return "deadline-not-reported", fmt.Sprintf("%s: a child held the output pipe beyond the deadline, but err=%v after %v", c, err, took), o
+	case !holder && ended && endedAt.Before(deadline.Add(-timeout/2)) && timedOut:
+		return "spurious-deadline", fmt.Sprintf("%s: the shell ended %v before the deadline but %v was reported", c, deadline.Sub(endedAt), err), o
 	}
 	time.Sleep(1500 * time.Millisecond)
 	mp, cp := readPid(mainPid), readPid(childPid)
 	if alive(mp) {
 		syscall.Kill(-mp, syscall.SIGKILL)
-		return "main-process-survives", fmt.Sprintf("%s: the command's shell (pid %d) is still running 1.5s after the action was reported finished (err=%v)", c, mp, err)
+		o.MainAlive = true
+		return "main-process-survives", fmt.Sprintf("%s: the command's shell (pid %d) is still running 1.5s after the action was reported finished (err=%v)", c, mp, err), o
 	}
 	if cp > 0 && alive(cp) {
 		syscall.Kill(cp, syscall.SIGKILL)
+		o.Others = 1
 		if timedOut {
-			return "timeout:child-in-process-group-survives", fmt.Sprintf("%s: background child %d survives a timed-out action", c, cp)
+			return "timeout:child-in-process-group-survives", fmt.Sprintf("%s: background child %d survives a timed-out action", c, cp), o
 		}
-		return "normal-exit:background-child-survives", fmt.Sprintf("%s: background child %d (same process group, output detached) keeps running after the action finished normally", c, cp)
+		return "normal-exit:background-child-survives", fmt.Sprintf("%s: background child %d (same process group, output detached) keeps running after the action finished normally", c, cp), o
 	}
-	return "", ""
+	return "", "", o
+}
+
+// outcome is what the model tier also records per execution.
+type outcome struct {
+	TimedOut  bool
+	MainAlive bool
+	Others    int
+}
+
+func (o *outcome) key() string {
+	return fmt.Sprintf("timedOut=%v main=%v others=%d", o.TimedOut, o.MainAlive, o.Others)
+}
+
+func readEnd(p string) (time.Time, bool) {
+	b, err := os.ReadFile(p)
+	if err != nil {
+		return time.Time{}, false
+	}
+	f, err := strconv.ParseFloat(strings.TrimSpace(string(b)), 64)
+	if err != nil {
+		return time.Time{}, false
+	}
+	return time.Unix(0, int64(f*1e9)), true
+}
+
+func (c cse) key() string {
+	return fmt.Sprintf("ignoreTERM=%v childIgnoresTERM=%v child=%s exit=%s", c.IgnoreTerm, c.ChildIgnoreTerm, c.Child, c.Exit)
+}
+
+// modelOut is what the model tier (harness/c30m) prints.
+type modelOut struct {
+	Cases       int                 `json:"cases"`
+	Executions  int                 `json:"executions"`
+	Pruned      int                 `json:"pruned"`
+	States      int                 `json:"states"`
+	Transitions int                 `json:"transitions"`
+	MaxPoints   int                 `json:"max_points"`
+	Incomplete  int                 `json:"incomplete"`
+	Bound       int                 `json:"bound"`
+	PairBound   int                 `json:"pair_bound"`
+	Outcomes    map[string][]string `json:"outcomes"`
+	Statuses    map[string]int      `json:"statuses"`
+	Violations  []modelViolation    `json:"violations"`
+}
+
+type modelViolation struct {
+	Class   string          `json:"class"`
+	Cases   json.RawMessage `json:"cases"`
+	Choices []int           `json:"choices"`
+	Newest  bool            `json:"newest_first"`
+	Detail  string          `json:"detail"`
+	Model   bool            `json:"model_tier"` // marks the witness as a schedule of the model tier (replayed by harness/c30m)
+}
+
+func runModel(args ...string) *modelOut {
+	bin := os.Getenv("VERIF_AUX_C30M")
+	if bin == "" {
+		lib.Fatal("VERIF_AUX_C30M not set (the driver builds the model tier)")
+	}
+	cmd := exec.Command(bin, args...)
+	cmd.Env = append(os.Environ(), "GOMAXPROCS=1", "GOGC=off", "GOMEMLIMIT=2GiB")
+	cmd.Stderr = os.Stderr
+	b, err := cmd.Output()
+	var m modelOut
+	if err != nil || json.Unmarshal(b, &m) != nil {
+		lib.Fatal("model tier failed: %v\n%s", err, b)
+	}
+	return &m
 }
 
 func main() {
-	r := lib.Start("C30", "exploration")
+	r := lib.Start("C30", "model_checking")
 	lib.Quiet()
-	var cases []cse
-	timeouts := []float64{0.3}
+	if r.Replay != "" {
+		var probe struct {
+			Model bool `json:"model_tier"`
+		}
+		lib.LoadReplay(r.Replay, &probe)
+		if probe.Model {
+			var w modelViolation
+			lib.LoadReplay(r.Replay, &w)
+			tmp := filepath.Join(lib.VerifRoot, ".work", "c30-replay.json")
+			b, _ := json.Marshal(w)
+			os.WriteFile(tmp, b, 0o644)
+			defer os.Remove(tmp)
+			m := runModel("--replay", tmp)
+			for _, v := range m.Violations {
+				v.Model = true
+				r.Violate(v.Class, v, v.Detail)
+			}
+			r.Finish(lib.Coverage{Evaluations: 1, DistinctNontrivial: 1, States: 1, Transitions: 1, TracesValidated: 0, Exhaustive: true})
+			return
+		}
+	}
+
+	// ---- model tier: every interleaving (within the deviation bound) of the real ExecWithTimeout against the kernel model
+	tier := "quick"
+	budget := "4m"
 	if !r.Quick() {
-		timeouts = []float64{0.2, 0.5, 1.0}
+		tier, budget = "thorough", "25m"
+	}
+	var m *modelOut
+	if r.Replay == "" {
+		bound := "3"
+		if !r.Quick() {
+			bound = "5"
+		}
+		m = runModel("--tier", tier, "--budget", budget, "--bound", bound, "--continue", strings.Join(r.KnownClasses(), ","))
+		for _, v := range m.Violations {
+			v.Model = true
+			r.Violate(v.Class, v, "[model tier] "+v.Detail)
+		}
+	}
+
+	// ---- real tier: the same behaviours, one real execution each
+	var cases []cse
+	timeouts := []float64{1.0}
+	if !r.Quick() {
+		timeouts = []float64{0.5, 1.0, 2.0}
 	}
 	for _, to := range timeouts {
 		for _, it := range []bool{false, true} {
 			for _, ch := range []string{"none", "holds-stdout", "detached"} {
-				for _, ex := range []string{"before", "at", "after"} {
-					cases = append(cases, cse{it, ch, ex, to})
+				for _, cit := range []bool{false, true} {
+					// a shell that ignores SIGTERM hands that on to its children; without a child the flag means nothing
+					if (it && !cit && ch != "none") || (ch == "none" && cit) {
+						continue
+					}
+					for _, ex := range []string{"before", "at", "after"} {
+						cases = append(cases, cse{it, cit, ch, ex, to})
+					}
 				}
 			}
 		}
@@ -143,6 +280,8 @@ func main() {
 		cases = []cse{c}
 	}
 	var wg sync.WaitGroup
+	var mu sync.Mutex
+	conform, mismatch := 0, []string{}
 	sem := make(chan struct{}, 6)
 	for i, c := range cases {
 		wg.Add(1)
@@ -150,19 +289,39 @@ func main() {
 		go func(i int, c cse) {
 			defer wg.Done()
 			defer func() { <-sem }()
-			cls, detail := run(e, c, filepath.Join(base, fmt.Sprint(i)))
+			cls, detail, o := run(e, c, filepath.Join(base, fmt.Sprint(i)))
 			if cls != "" {
 				// classify failures before believing them: the same case must fail the same way again
-				cls2, _ := run(e, c, filepath.Join(base, fmt.Sprint(i)+"r"))
+				cls2, _, _ := run(e, c, filepath.Join(base, fmt.Sprint(i)+"r"))
 				if cls2 != cls {
 					fmt.Fprintf(os.Stderr, "NOTE: %s gave %q then %q; not reported (timing-dependent outcome)\n", c, cls, cls2)
 					return
 				}
 				r.Violate(cls, c, detail)
 			}
+			// conformance of the kernel model: what the real kernel did must be one of the outcomes the model produced
+			if m != nil {
+				found := false
+				for _, k := range m.Outcomes[c.key()] {
+					if k == "0: "+o.key() {
+						found = true
+					}
+				}
+				mu.Lock()
+				if found {
+					conform++
+				} else {
+					mismatch = append(mismatch, fmt.Sprintf("%s: real outcome %q not among the model's %v", c, o.key(), m.Outcomes[c.key()]))
+				}
+				mu.Unlock()
+			}
 		}(i, c)
 	}
 	wg.Wait()
+	if len(mismatch) > 0 {
+		sort.Strings(mismatch)
+		lib.Fatal("MODEL-CONFORMANCE: the kernel model of the model tier does not produce what the real kernel did:\n%s", strings.Join(mismatch, "\n"))
+	}
 	var samples []any
 	for i, c := range cases {
 		if i%7 == 0 {
@@ -170,15 +329,26 @@ func main() {
 		}
 	}
 	r.Assume = []string{
-		"LIMIT: kernel scheduling, signal delivery and timer firing are not under the explorer's control; the schedule half of this property's quantifier is NOT enumerated. The claim is the exhaustive input product, one real execution each (failures are re-run once and only reported if they reproduce).",
-		"bounds are generous and documented: return within deadline + 1.03s (the code's own TERM/KILL waits) + 5s slack; survivors are checked 1.5s after return; 'exits right at the deadline' accepts both outcomes",
+		"model tier: src/process is mechanically rewritten (goroutines, channels, select, mutex, time.After under the controlled scheduler); (*exec.Cmd).Start/Wait, syscall.Kill and context.WithTimeout are replaced by the kernel model verifshim/vproc on the fake clock: a process group dies on SIGKILL, members that do not ignore SIGTERM die on SIGTERM, Wait returns when the main process is dead and no live process holds the output pipe. Signals take effect immediately.",
+		"model tier bounds: delay bounding (every non-default scheduling choice and every early timer firing costs one deviation) under two default schedulers (oldest / newest thread first), state-key pruned; the bound is in the evidence. An early timer firing models arbitrarily slow threads; durations are judged only in executions without one.",
+		"real tier: kernel scheduling, signal delivery and timer firing are not under the explorer's control: one real execution per behaviour (failures are re-run once and only reported if they reproduce); it doubles as the conformance check of the kernel model: every real outcome must be among the model's outcomes for that behaviour",
+		"real-tier bounds are generous and documented: return within deadline + 1.03s (the code's own TERM/KILL waits) + 5s slack (not judged if the machine needs more than 1s for `true`); the expected verdict follows from the instant at which the shell really ended, with half the timeout as a margin in which both verdicts are accepted; survivors are checked 1.5s after return",
 		"children are background jobs of the action's shell, i.e. in the action's process group (the statement's scope)",
 	}
-	r.Finish(lib.Coverage{
+	cov := lib.Coverage{
 		Evaluations:        len(cases),
 		DistinctNontrivial: len(cases),
-		Rule:               "full product {ignores SIGTERM} x {no child, background child holding stdout, background child with detached output} x {exits before / at / after the deadline} x timeouts; each distinct by construction, all non-trivial (every case spawns a real process through ExecWithTimeout)",
+		Rule:               "model tier: for each behaviour {main ignores SIGTERM} x {none / child holding stdout / detached child} x {child ignores SIGTERM} x {exits before / at / after the deadline} (and pairs of behaviours on one Executor) every schedule within the deviation bound; real tier: the realisable part of the same product x timeouts, one real execution each through ExecWithTimeout (all non-trivial: every case spawns real processes)",
 		Samples:            samples,
 		Exhaustive:         true,
-	})
+		TracesValidated:    conform,
+	}
+	if m != nil {
+		cov.Evaluations += m.Executions
+		cov.DistinctNontrivial += m.Executions - m.Pruned
+		cov.States, cov.Transitions = m.States, m.Transitions
+		cov.Exhaustive = m.Incomplete == 0
+		cov.Extra = map[string]any{"model_cases_and_pairs": m.Cases, "model_executions": m.Executions, "model_pruned": m.Pruned, "model_deviation_bound_single": m.Bound, "model_deviation_bound_pairs": m.PairBound, "model_incomplete_explorations": m.Incomplete, "model_execution_statuses": m.Statuses, "model_max_choice_points": m.MaxPoints, "real_cases": len(cases), "real_outcomes_found_in_model": conform}
+	}
+	r.Finish(cov)
 }
